@@ -467,6 +467,8 @@ Group:
 
             for k in info.keys():
                 value = info[k]
+                if not value:           # e.g. productDir is None when the file had no PROD_DIR
+                    continue
 
                 if os.path.isfile(value) or os.path.isdir(value):
                     if trimDir and eups.utils.isSubpath(value, trimDir):
